@@ -266,16 +266,8 @@ func vfC17(w *vfWorld) {
 			}
 			continue
 		}
-		if fault != "" {
-			cs.Faults++
-			w.fault("upstream:" + fault)
-			if fault != "reset" && len(r.UpHits) > 0 && fault != "hang" {
-				w.violate("C17", "fault-handling", fault, "%s: upstream %s but a hit was logged", label, fault)
-			}
-			if r.Status != 502 && r.Status != 504 && r.Status != 0 {
-				w.violate("C17", "fault-handling", fault, "%s: upstream fault %s answered %d (want 502 error page)", label, fault, r.Status)
-			}
-			continue
+		if rule.re != nil && strings.Contains(path, "%3F") && fault != "" {
+			continue // F13 territory combined with an upstream fault: not judged
 		}
 		if rule.re != nil && strings.Contains(path, "%3F") {
 			// finding F13 (encoded question mark under a rewrite rule): judged as one unit
@@ -287,6 +279,17 @@ func vfC17(w *vfWorld) {
 					got = r.UpHits[0].URI
 				}
 				w.violate("C17", "request-target", "rewrite/encoded-question-mark", "%s: upstream received %q, the rule %s -> %s says path %q", label, got, rule.Path, rule.Rewrite, wantP)
+			}
+			continue
+		}
+		if fault != "" {
+			cs.Faults++
+			w.fault("upstream:" + fault)
+			if fault != "reset" && len(r.UpHits) > 0 && fault != "hang" {
+				w.violate("C17", "fault-handling", fault, "%s: upstream %s but a hit was logged", label, fault)
+			}
+			if r.Status != 502 && r.Status != 504 && r.Status != 0 {
+				w.violate("C17", "fault-handling", fault, "%s: upstream fault %s answered %d (want 502 error page)", label, fault, r.Status)
 			}
 			continue
 		}
